@@ -202,7 +202,8 @@ def run_configs(prop, tier, configs, depth_of, workers=None, level="model_checki
         dd = depth_of(cfg)
         depth, max_states = dd[0], dd[1]
         # thorough runs are bounded in wall time per configuration (reported as a cap); quick runs only by depth
-        budget = dd[2] if len(dd) > 2 else (None if tier == "quick" else 90)
+        # (configurations run three at a time on a third of the cores each, hence 200 s rather than a third of that)
+        budget = dd[2] if len(dd) > 2 else (None if tier == "quick" else 200)
         seed_h = seeds(cfg) if seeds else ()
         plans.append((cfg, depth, max_states, budget, seed_h))
     results = _explore_all(plans, workers)
